@@ -207,6 +207,9 @@ pub fn search_with_timeout_and_memory<M: Mode>(
             eprintln!("LP: is_suitable_for_lp() = {}, lp_has_objective = {}", is_suitable, lp_has_objective);
         }
         
+        // Verification hook H4: root LP step can be switched off
+        #[cfg(selen_verif)]
+        let is_suitable = is_suitable && !crate::verif_hooks::root_lp_disabled();
         // Only use LP if: (1) suitable AND (2) has objective in linear system
         // Without objective in linear system, LP can't help optimize
         if is_suitable && lp_has_objective {
@@ -271,6 +274,8 @@ pub fn search_with_timeout_and_memory<M: Mode>(
                         }
                     }
                     vars = vars_mut;
+                    #[cfg(selen_verif)]
+                    crate::verif_hooks::note_root_lp_applied();
                     if LP_DEBUG {
                         eprintln!("LP: Successfully applied LP bounds");
                     }
@@ -591,6 +596,18 @@ impl<M: Mode, B: Iterator<Item = (Space, crate::constraints::props::PropId)>> It
 
     fn next(&mut self) -> Option<Self::Item> {
         loop {
+            // Verification hook H6: check every iteration, k-th check finds a limit exceeded
+            #[cfg(selen_verif)]
+            if let Some((k, kind)) = crate::verif_hooks::fire_at() {
+                self.timeout_check_interval = 1;
+                if self.iteration_count + 1 >= k {
+                    if kind == 0 {
+                        self.timeout_duration = Some(std::time::Duration::ZERO);
+                    } else {
+                        self.memory_limit_mb = Some(0);
+                    }
+                }
+            }
             // Periodically check timeout and memory limits to reduce overhead
             self.iteration_count += 1;
             if self.iteration_count % self.timeout_check_interval == 0 {
